@@ -125,3 +125,39 @@ impl serde::de::Error for SimError {
         SimError::Custom(msg.to_string())
     }
 }
+
+/// A number that differs from `n` in every leaf (target of an in-place deserialization that must overwrite everything).
+pub fn other_everywhere(n: &Node) -> Node {
+    match n {
+        Node::F64(b) => Node::F64(if f64::from_bits(*b) == 0.0 { 1.5f64.to_bits() } else { (-f64::from_bits(*b)).to_bits() }),
+        Node::F32(b) => Node::F32(if f32::from_bits(*b) == 0.0 { 1.5f32.to_bits() } else { (-f32::from_bits(*b)).to_bits() }),
+        Node::Struct { name, fields } => Node::Struct { name: name.clone(), fields: fields.iter().map(|(k, v)| (k.clone(), other_everywhere(v))).collect() },
+        o => o.clone(),
+    }
+}
+
+/// A number that an equality looking at real parts only (and `0.0 == -0.0`) cannot tell from `n`, although it differs:
+/// every part keeps its innermost real value - zeros with the other sign - and gets other derivative parts.
+pub fn equal_by_real_parts(n: &Node) -> Node {
+    fn flip_zero(n: &Node) -> Node {
+        match n {
+            Node::F64(b) if f64::from_bits(*b) == 0.0 => Node::F64(*b ^ (1 << 63)),
+            Node::F32(b) if f32::from_bits(*b) == 0.0 => Node::F32(*b ^ (1 << 31)),
+            o => o.clone(),
+        }
+    }
+    fn part(n: &Node) -> Node {
+        match n {
+            Node::Struct { name, fields } => Node::Struct {
+                name: name.clone(),
+                // the first field is the real part of this level: keep its real chain; everything else becomes something else
+                fields: fields.iter().enumerate().map(|(i, (k, v))| (k.clone(), if i == 0 { part(v) } else { other_everywhere(v) })).collect(),
+            },
+            leaf => flip_zero(leaf),
+        }
+    }
+    match n {
+        Node::Struct { name, fields } => Node::Struct { name: name.clone(), fields: fields.iter().map(|(k, v)| (k.clone(), part(v))).collect() },
+        o => o.clone(),
+    }
+}
